@@ -513,6 +513,7 @@ def triage(chk, crate, obs, renderers=None, excl_factory=None):
     excl_factory: fn(cfgs) -> KaniCrate built with the exclusion cfgs (for the re-run after a known finding)"""
     renderers = renderers or {}
     rerun = []
+    mixed = []
     for ob in obs:
         if ob.verdict != "fail":
             continue
@@ -536,7 +537,39 @@ def triage(chk, crate, obs, renderers=None, excl_factory=None):
         if len(chk.violations) >= MAX_REPLAYS:
             ob.detail = "fails %s; not replayed (replay cap %d reached, exit code is already 1)" % (unknown, MAX_REPLAYS)
             continue
+        kcfgs = sorted({chk.known_for(short, l)["exclude_cfg"] for l in labels
+                        if chk.known_for(short, l) and chk.known_for(short, l).get("exclude_cfg")})
+        if kcfgs and excl_factory:
+            # an unlisted failure next to a listed one: look for the counterexample with the listed classes excluded, so that
+            # the replay shows the unlisted violation and not the recorded input
+            mixed.append((ob, labels, unknown, kcfgs))
+            continue
         confirm_violation(chk, crate, ob, labels, unknown, renderers)
+    if mixed:
+        cfgs = sorted({c for m in mixed for c in m[3]} | {c for _, cs in rerun for c in cs})
+        crate2 = excl_factory(cfgs)
+        built = crate2.build()
+        for ob, labels, unknown, _ in mixed:
+            done = False
+            if built:
+                spec = dict(name=ob.name, timeout=ob.info.get("timeout", 300), info=dict(ob.info, rerun_excluding=cfgs),
+                            cbmc_args=ob.info.get("cbmc_args"), extra=ob.info.get("extra"))
+                for ob2 in run_harnesses(chk, crate2, [spec]):
+                    ob2.name = ob2.name + " [known finding classes excluded]"
+                    if ob2.verdict == "fail":
+                        l2 = sorted({f["desc"] for f in ob2.failed})
+                        confirm_violation(chk, crate2, ob2, l2, l2, renderers, harness=ob2.name.split(" ")[0])
+                        ob.verdict = "known"
+                        ob.info["known_finding_labels"] = [l for l in labels if l not in unknown]
+                        for l in ob.info["known_finding_labels"]:
+                            k = chk.known_for(ob.name.split("::")[-1], l)
+                            line = "harness=%s label=%r %s" % (ob.name.split("::")[-1], k.get("label"), k["what"])
+                            if line not in chk.known_printed:
+                                chk.known_printed.append(line)
+                        ob.detail = "also fails unlisted checks %s: decided by the re-run with the listed classes excluded" % unknown
+                        done = ob2.verdict == "fail"
+            if not done:
+                confirm_violation(chk, crate, ob, labels, unknown, renderers)
     if rerun and excl_factory:
         cfgs = sorted({c for _, cs in rerun for c in cs})
         crate2 = excl_factory(cfgs)
